@@ -160,7 +160,8 @@ def run_genver_case(case):
 
 
 # ---------------------------------------------------------------- (3) key2jwk / jwk2key
-KEYTYPES = ["rsa2048", "rsa3072", "P-256", "P-384", "P-521", "secp256k1", "ed25519", "ed448", "oct32", "oct48", "oct64", "oct100", "oct512", "pss"]
+KEYTYPES = ["rsa2048", "rsa3072", "P-256", "P-384", "P-521", "secp256k1", "ed25519", "ed448", "oct32", "oct48", "oct64", "oct100", "oct512", "pss",
+            "oct33:0a", "oct48:0a", "oct64:0a", "oct40:0d", "oct64:00", "oct32:0a", "oct50:20"]   # oct keys are arbitrary bytes: newline / CR / NUL / space at the end
 POOL = {}   # (type, short, slot) -> (priv/bin path, pub path): generated once per process so that a case is deterministic
 def setup_pool():
     d = os.path.join(WORK, "pool"); os.makedirs(d)
